@@ -317,7 +317,7 @@ PROPS["C16"] = {"gen": lambda tier: c16_simple(tier) + c16_mg(tier) + c16_wg(tie
 
 
 KIND_NAMES = {0: "dir", 1: "und", 2: "dmg", 3: "umg", 4: "dwg", 5: "uwg"}
-EQ_Q = {0: "eq", 1: "ne", 2: "sym", 3: "refl", 4: "copyctor", 5: "copyassign", 6: "copyctor-indep", 7: "copyassign-indep", 8: "noop-removal", 9: "add-then-remove"}
+EQ_Q = {0: "eq", 1: "ne", 2: "sym", 3: "refl", 4: "copyctor", 5: "copyassign", 6: "copyctor-indep", 7: "copyassign-indep", 8: "noop-removal", 9: "add-then-remove", 10: "huge-weight-history"}
 
 
 def eq_ob(kind, lt, ng, nh, q, **kw):
@@ -345,6 +345,10 @@ def c06(tier):
             if tier == "quick" and (ng, nh) in ((1, 1), (0, 1), (3, 2)) and not (kind in (0, 1) and lt == 1):
                 continue
             obs.append(eq_ob(kind, lt, ng, nh, 0, optional_reach=[""]))
+        if kind >= 4:
+            obs.append(eq_ob(kind, lt, 2, 2, 10))
+            if tier == "thorough":
+                obs.append(eq_ob(kind, lt, 3, 3, 10))
         if tier == "thorough" and lt in (0, 1):
             obs.append(eq_ob(kind, lt, 4, 4, 0, timeout=3000, mem_gb=12))
     return obs
@@ -781,7 +785,7 @@ def c14(tier):
             if tier == "quick" and und and bl not in (0, 3, 6):
                 continue
             obs.append(bin_ob("C14", und, bl, 0, n=2 if und else 3, emaxw=2 if tier == "quick" else 3, mem_gb=8))
-            if tier == "thorough" and bl in (0, 3, 6):
+            if tier == "thorough" and bl == 0:   # the direct query with labels (int, double) does not finish in an hour: decided by composition only
                 obs.append(bin_ob("C14", und, bl, 1, n=2, emaxw=1, timeout=3400, mem_gb=12))
             obs.append(bin_ob("C14", und, bl, 2, n=3, recs=2 if tier == "quick" else 3))
             if not und:
@@ -808,11 +812,12 @@ def c15_bin(tier):
 
 
 PROPS["C14"] = {"gen": c14,
-    "bounds": {"quick": "written graphs: 3 vertices (2 when undirected) / <=2 edges (layout), round trips are decided by composition: the layout obligation (the file is exactly one record per enumerated edge) with the loader obligation (any record sequence loads to exactly those edges and labels); the direct write-load-compare query on 2 vertices / 1 edge is in the thorough tier; hand-made files of 2 records with indices < 3 in any order; labels NoLabel, uint8_t, uint16_t, int, uint64_t (full range), float, double (4 table values); directed (all label types) and undirected (NoLabel, int, double)",
+    "bounds": {"quick": "written graphs: 3 vertices (2 when undirected) / <=2 edges (layout), round trips are decided by composition: the layout obligation (the file is exactly one record per enumerated edge) with the loader obligation (any record sequence loads to exactly those edges and labels); the direct write-load-compare query on 2 vertices / 1 edge is in the thorough tier for unlabelled graphs (with int or double labels it ran past an hour without a verdict and is not claimed); hand-made files of 2 records with indices < 3 in any order; decoder and encoder for the full index range: loadBinaryEdgeList / writeBinaryEdgeList instantiated with a recording graph class (they are templates over the graph class), 2 records, every byte of the index fields symbolic (all 32-bit indices except 0xffffffff); labels NoLabel, uint8_t, uint16_t, int, uint64_t (full range), float, double (4 table values); directed (all label types) and undirected (NoLabel, int, double)",
                "thorough": "<=3 edges / 3 records; undirected for every label type"},
     "outside": "longer files; behaviour on a big-endian host (SYSTEM_IS_BIG_ENDIAN is false in every build this sandbox can produce - only the swapBytes kernel that branch would use is checked)",
     "explanation": "The writer and loader run on an in-memory stream model; bytes are compared with shifts in the harness (no memcpy on the host representation), the loaded graph with the abstraction of the written one.",
-    "assumptions": ["stream model: read copies what is there, a short read sets failbit (istream.unformatted)"]}
+    "assumptions": ["stream model: read copies what is there, a short read sets eofbit|failbit, an input function on a stream that is not good() sets failbit and extracts nothing, peek() returns the next byte as unsigned char or traits::eof() (istream.unformatted, istream::sentry)",
+                    "recording graph class for the full-index-range obligations: (0)-constructor, getSize, resize, addEdge(.., force), edges(), getEdgeLabel - what the two templates ask of a graph class"]}
 
 
 TXT_Q = {0: "tokeniser", 1: "loadTextEdgeList", 2: "loadTextVertexLabeledEdgeList", 3: "writeTextEdgeList", 4: "arbitrary-text"}
